@@ -40,6 +40,7 @@ COMPONENTS = {
     "stub": ["SimReader/SimWriter: the byte stream of a subprocess pipe (chunking, latency, truncation, EPIPE)"],
 }
 ASSUMPTIONS = ["a stream cut inside the zero padding that follows the end-of-archive marker loses nothing and may succeed"]
+INTERLEAVE_CASES = False   # the enumerated fault classes run first and completely; seeded runs use what is left of the budget
 TIERS = {"quick": {"runs": 1500, "budget_s": 55}, "thorough": {"runs": 100000, "budget_s": 480}}
 SIM_KW = {"max_steps": 3_000_000, "wall_cap": 20.0}
 
